@@ -903,8 +903,16 @@ class Node(object):
         the item removed from the list
 
         """
-        try: return self.childNodes.pop(index)
+        try: node = self.childNodes.pop(index)
         except: raise IndexError('object has no childNodes')
+        # A removed node is no longer below this one (children listed by a
+        # fragment name the fragment or the fragment's own parent)
+        parent = node.parentNode
+        if parent is self or parent is self.childNodes or \
+           (self.nodeType == Node.DOCUMENT_FRAGMENT_NODE and
+            parent is self.parentNode):
+            node.parentNode = None
+        return node
 
     def append(self, newChild, setParent=True):
         """
